@@ -96,3 +96,5 @@ def run(ctx):
     c03_border_offsets.tiebreaks(ctx, crate, clause="P5-tie-breaks-independent-of-depth")
     ctx.not_decided("the lemma's float side conditions (zero, negative zero, sub-normal sums, exponent overflow at depth 0) are argued on paper; containment (C01) is float numerics")
     ctx.assume("adding k<<52 to the bit pattern of a positive normal double multiplies it by 2^k exactly (IEEE-754), absent exponent overflow/underflow")
+    from rules import controls as _controls
+    _controls.feval_controls(ctx)
